@@ -12,3 +12,13 @@ Print Assumptions C08_every_call.
 Theorem C08_holds : forall c : scase, wf_case c -> chk_C08_kv (c, srun c) = true.
 Proof. exact (chk_kv_sound chk_row_C08 C08_row_sound). Qed.
 Print Assumptions C08_holds.
+
+(* Ordering under concurrent writers.  On the faithful interleaving model (a write is Commit, then the
+   read of the feed list, then the Push, as in collection.go / feeds.go) the full statement "every run of
+   every feed receives its events in increasing CAS order, in every interleaving" is FALSE: *)
+From Rosmar Require Import Feed FeedProofs.
+Theorem C08_order_refuted : ~ (forall acts, forallb (fun fs => order_ok_feed (snd fs)) (feeds (frun_all acts)) = true).
+Proof. exact order_refuted. Qed.
+Print Assumptions C08_order_refuted.
+(* the witness (writer 1 commits, writer 2 commits and posts, writer 1 posts) is KNOWN_FINDINGS KF-C08-order;
+   the sched family replays it on the code and checks every schedule outside that window *)
